@@ -221,3 +221,12 @@ Qed.
 (* lenient mode never fails; strict mode fails exactly when a selected handler cannot initialise *)
 Lemma make_handlers_lenient selected epoch : make_handlers selected false epoch <> None.
 Proof. unfold make_handlers. rewrite make_handlers_from_spec. cbn [andb]. discriminate. Qed.
+
+(* the derived order of ProcessResult (variant order regenerated from the source) is the rank the model uses:
+   extend_and_warn keeps the maximum, so an error is never hidden by "unsupported" or "modified" *)
+Lemma presult_order_as_modelled :
+  presult_order = map presult_name [Ignored; Noop; Replaced; Rewritten; BadFormat; Error] /\
+  forall a b, presult_rank (presult_max a b) = N.max (presult_rank a) (presult_rank b).
+Proof.
+  split; [reflexivity|]. intros a b. unfold presult_max. destruct (N.ltb_spec (presult_rank a) (presult_rank b)); lia.
+Qed.
